@@ -216,6 +216,81 @@ def fault_cases(draw):
     }
 
 
+@st.composite
+def fault_history_cases(draw):
+    """One Fault object serialised several times: what a call is given (version, id) holds for that call;
+    nothing but the Fault's own id may be carried over"""
+    steps = draw(st.lists(st.fixed_dictionaries({
+        "via": st.sampled_from(["response", "dump", "dumps", "moddump", "error"]),
+        "version": versions,
+        "forced": gen.pick(st.none(), st.sampled_from([0, "", 0.0]), st.integers(1, 99), st.text(gen.TEXT_ALPHABET, min_size=1, max_size=4)),
+        "positional": st.booleans(),
+    }), min_size=2, max_size=5))
+    return {
+        "steps": steps,
+        "code": draw(gen.pick(st.integers(-40000, 40000), st.sampled_from([-32700, -32600, -32000, 0, 1]))),
+        "message": draw(st.text(gen.TEXT_ALPHABET, max_size=8)),
+        "data": draw(gen.pick(st.none(), gen.json_values(4))),
+        "rpcid": draw(gen.pick(st.integers(1, 99), st.text(gen.TEXT_ALPHABET, min_size=1, max_size=4))),
+        "cfgver": draw(st.sampled_from([1.0, 2.0])),
+    }
+
+
+def oracle_fault_history(case):
+    J, Config = _imports()
+    cfg = Config(version=case["cfgver"])
+    code, message, data = case["code"], case["message"], case["data"]
+    f = J.Fault(code, message, rpcid=case["rpcid"], config=cfg, data=data)
+    err = {"code": code, "message": message}
+    if data is not None:
+        err["data"] = gen.norm(data)
+    own_ids = [case["rpcid"]]      # ids the Fault may answer with when a call forces none
+    seen = set()
+    for n, step in enumerate(case["steps"]):
+        version, forced, via = step["version"], step["forced"], step["via"]
+        effver = float(version) if version else case["cfgver"]
+        try:
+            if via == "error":
+                f.error()
+                continue
+            if via == "response":
+                msg = gen.strict_json_loads(f.response(forced, version) if step["positional"] else f.response(rpcid=forced, version=version))
+            elif via == "dump":
+                msg = gen.norm(f.dump(forced, version) if step["positional"] else f.dump(rpcid=forced, version=version))
+            else:
+                # the module-level functions are handed the id explicitly (a response needs one)
+                rid = forced if forced else own_ids[0]
+                if via == "dumps":
+                    msg = gen.strict_json_loads(J.dumps(f, methodresponse=True, rpcid=rid, version=version, config=cfg))
+                else:
+                    msg = gen.norm(J.dump(f, is_response=True, rpcid=rid, version=version, config=cfg))
+        except Violation:
+            raise
+        except Exception as ex:
+            fail("C14/fault-raised", "step %d (%s) on a Fault serialised before raised %s: %s" % (n, via, type(ex).__name__, ex), case)
+        if via in ("dumps", "moddump"):
+            ids = [forced if forced else own_ids[0]]
+        elif forced:
+            ids = [forced]
+            own_ids.append(forced)       # Fault.response()/dump() may keep a forced id (they do), or not
+        else:
+            ids = own_ids
+        exps = []
+        for i in ids:
+            exp = {"id": i, "error": err}
+            if effver >= 2:
+                exp["jsonrpc"] = "2.0"
+            else:
+                exp["result"] = None
+            exps.append(exp)
+        if not any(gen.strict_eq(msg, e) for e in exps):
+            fail("C14/fault-members", "step %d: the %s of a Fault serialised before (version %r, Config version %r) is %r, expected %r" % (
+                n, via, version, case["cfgver"], msg, exps[0]), case)
+        seen.add((via, effver))
+    versions_used = set(float(s["version"]) if s["version"] else case["cfgver"] for s in case["steps"] if s["via"] != "error")
+    return Info(nt=len(versions_used) > 1, classes=["fault-history", "versions-%d" % len(versions_used), "steps-%d" % len(case["steps"])])
+
+
 def grid_cases(tier):
     """Exhaustive over the discrete part"""
     plist = [ABSENT, None, [], (), {}, [1], (0,), {"a": None}, [[]], 5, "s", "<SET>", "<BEAN>", "<DECIMAL>"]
@@ -584,6 +659,9 @@ SUBS = [
     Sub("faults", oracle_fault, strategy=lambda tier: fault_cases(),
         budget={"quick": 4000, "thorough": 60000}, shards={"quick": 4, "thorough": 16},
         what="error responses built from Fault via dumps/dump/Fault.response/Fault.dump"),
+    Sub("fault-history", oracle_fault_history, strategy=lambda tier: fault_history_cases(),
+        budget={"quick": 3000, "thorough": 40000}, shards={"quick": 4, "thorough": 16},
+        what="one Fault object serialised two to five times (Fault.response / Fault.dump / dumps / dump / error) with a version and an id drawn per call: each message has the members of the version selected for that call"),
     Sub("grid", oracle_message, enumerate=grid_cases,
         shards={"quick": 4, "thorough": 4},
         what="exhaustive flag/version grid with representative params and ids"),
